@@ -155,12 +155,16 @@ class FragGen:
             ops.append(f"query {name} {{ {root_field} {{ " + " ".join(parts) + " } }")
 
         if shape == "chain":
-            k = r.randint(2, 5)
+            k = r.randint(3, 5)
             prev = None
             for i in range(k):
                 body = self.leaves(T, 1, 2) + (["..." + prev] if prev else [])
                 prev = self.new_fragment(T, body, self.mixin(0.25))
             op("Chain", r.choice(root_of[T]), ["..." + prev] + self.leaves(T, 0, 1))
+            if k >= 3:
+                # top and bottom of the chain side by side: the bottom is inherited TRANSITIVELY
+                first = list(self.frags)[0]
+                op("ChainEnds", r.choice(root_of[T]), ["..." + prev, "..." + first])
         elif shape == "diamond":
             d = self.new_fragment(T, self.leaves(T, 1, 2), self.mixin(0.25))
             b = self.new_fragment(T, self.leaves(T, 1, 1) + ["..." + d])
